@@ -13,8 +13,8 @@ git apply $d/patch.diff || res=noapply
 [ $res = ok ] && { bash /verif/tools/baseline.sh $wt | tail -1 | grep -q "48 of 48" || res=baselinefail; }
 if [ $res = ok ]; then
   cp $d/demo_test.go demo_test.go
-  go test -vet=off -count=1 -run TestDemo . >/dev/null 2>&1 && res=demo-passes-with-change
+  go test ${DEMO_TAGS:+-tags $DEMO_TAGS} -vet=off -count=1 -run TestDemo . >/dev/null 2>&1 && res=demo-passes-with-change
   git checkout -- . ; cp $d/demo_test.go demo_test.go
-  go test -vet=off -count=1 -run TestDemo . >/dev/null 2>&1 || res=demo-fails-without-change
+  go test ${DEMO_TAGS:+-tags $DEMO_TAGS} -vet=off -count=1 -run TestDemo . >/dev/null 2>&1 || res=demo-fails-without-change
 fi
 echo "reverify $name: $res"
